@@ -1118,6 +1118,12 @@ def check_handle_item_pairing(rep, fl, rule="R06.2", collisions=True, only_sites
             del_rm = (bi, t, a)
         elif a[1][0] == "field" and a[1][2] == "key" and hi.in_loop(bi):
             vic_rm = (bi, t, a)
+    # the handler removes from the store for these two reasons only; any other removal (in particular one with the
+    # wildcard conflict 0 for a key that is not a victim) takes out whatever lives under that index, whoever owns it
+    others = [(bi, t) for bi, t in trs if (del_rm is None or t is not del_rm[1]) and (vic_rm is None or t is not vic_rm[1])]
+    rep.check(not others, rule, fl, hi, "store removals: Delete and victims only", "the processor removes store entries for a Delete (conflict-checked) and for the policy's victims only",
+              "the processor also removes store entries at %s: an entry of another key that shares the index can be taken out" % ", ".join(
+                  "try_remove(%s)" % ", ".join(show(norm(x)) for x in hi.call_args(t)[1:]) for bi, t in others), loc=others[0][1]["sp"] if others else None)
     ok = vic_rm is not None
     if ok:
         # one iteration over the victim vector returned by add (a `for` loop, for_each or try_for_each alike); in
@@ -1259,6 +1265,8 @@ def check_C06(rep, fl):
     import props_policy
     props_store.keep_rules(rep, fl, props_policy.check_C01, {"R01.3"})
     props_store.keep_rules(rep, fl, props_policy.check_C07, {"R07.6"})
+    # entries leave the store, and charges are released, only at the audited removal sites (each of which does both)
+    props_store.check_removal_inventory(rep, fl)
     check_handle_item_pairing(rep, fl)
     check_remove_pair(rep, fl)
     check_no_err_between(rep, fl)
